@@ -75,22 +75,22 @@ func (fs *FS) wrapRelPathErr(err error) error {
 		separator = string(filepath.Separator)
 		slash     = "/"
 	)
+	relPath := func(p string) string {
+		p = strings.TrimPrefix(p, rootedPath)
+		p = strings.ReplaceAll(p, separator, slash)
+		p = strings.TrimPrefix(p, slash)
+		if p == "" {
+			p = "." // the root itself
+		}
+		return p
+	}
 	switch e := err.(type) {
 	case *hackpadfs.PathError:
 		errCopy := *e
-		errCopy.Path = strings.TrimPrefix(errCopy.Path, rootedPath)
-		errCopy.Path = strings.ReplaceAll(errCopy.Path, separator, slash)
-		errCopy.Path = strings.TrimPrefix(errCopy.Path, slash)
+		errCopy.Path = relPath(errCopy.Path)
 		err = &errCopy
 	case *os.LinkError:
-		errCopy := &hackpadfs.LinkError{Op: e.Op, Old: e.Old, New: e.New, Err: e.Err}
-		errCopy.Old = strings.TrimPrefix(errCopy.Old, rootedPath)
-		errCopy.Old = strings.ReplaceAll(errCopy.Old, separator, slash)
-		errCopy.Old = strings.TrimPrefix(errCopy.Old, slash)
-		errCopy.New = strings.TrimPrefix(errCopy.New, rootedPath)
-		errCopy.New = strings.ReplaceAll(errCopy.New, separator, slash)
-		errCopy.New = strings.TrimPrefix(errCopy.New, slash)
-		err = errCopy
+		err = &hackpadfs.LinkError{Op: e.Op, Old: relPath(e.Old), New: relPath(e.New), Err: e.Err}
 	}
 	return err
 }
@@ -163,15 +163,15 @@ func (fs *FS) RemoveAll(name string) error {
 
 // Rename implements hackpadfs.RenameFS
 func (fs *FS) Rename(oldname, newname string) error {
-	oldname, err := fs.rootedPath("", oldname)
+	oldOSPath, err := fs.rootedPath("", oldname)
 	if err != nil {
 		return &hackpadfs.LinkError{Op: "rename", Old: oldname, New: newname, Err: err.Err}
 	}
-	newname, err = fs.rootedPath("", newname)
+	newOSPath, err := fs.rootedPath("", newname)
 	if err != nil {
 		return &hackpadfs.LinkError{Op: "rename", Old: oldname, New: newname, Err: err.Err}
 	}
-	return fs.wrapErr(os.Rename(oldname, newname))
+	return fs.wrapErr(os.Rename(oldOSPath, newOSPath))
 }
 
 // Stat implements hackpadfs.StatFS
@@ -253,13 +253,13 @@ func (fs *FS) WriteFile(name string, data []byte, perm hackpadfs.FileMode) error
 
 // Symlink implements hackpadfs.SymlinkFS
 func (fs *FS) Symlink(oldname, newname string) error {
-	oldname, pathErr := fs.rootedPath("symlink", oldname)
+	oldOSPath, pathErr := fs.rootedPath("symlink", oldname)
 	if pathErr != nil {
 		return &hackpadfs.LinkError{Op: "symlink", Old: oldname, New: newname, Err: pathErr.Err}
 	}
-	newname, pathErr = fs.rootedPath("symlink", newname)
+	newOSPath, pathErr := fs.rootedPath("symlink", newname)
 	if pathErr != nil {
 		return &hackpadfs.LinkError{Op: "symlink", Old: oldname, New: newname, Err: pathErr.Err}
 	}
-	return fs.wrapErr(os.Symlink(oldname, newname))
+	return fs.wrapErr(os.Symlink(oldOSPath, newOSPath))
 }
